@@ -55,7 +55,10 @@ const DETAILS: &[Details] = &[
         target_os = "macos"
     ))]
     s!(SIGINFO, Ignore),
-    #[cfg(not(target_os = "haiku"))]
+    // Linux terminates the process on SIGIO (aka SIGPOLL); the BSDs and others ignore it.
+    #[cfg(any(target_os = "linux", target_os = "android"))]
+    s!(SIGIO, Term),
+    #[cfg(not(any(target_os = "haiku", target_os = "linux", target_os = "android")))]
     s!(SIGIO, Ignore),
     // Can't override anyway, but...
     s!(SIGKILL, Term),
